@@ -365,6 +365,24 @@ func evalC03(sc *Scenario, sim *Sim) ([]Violation, bool, string) {
 			kind, detail := describeDiff(base, out)
 			if kind != "" {
 				agree = false
+				// is it the schedule at all? run both sides once more; if either side does not repeat itself,
+				// the difference is nondeterminism outside the seams
+				var again, base2 runOutcome
+				if a.Reloc != "" {
+					again = run(sbReloc, sc.World.WithPrefix(a.Reloc), a.Reloc, a.Plan, a.Env, false)
+				} else {
+					again = run(sb, sc.World, "", a.Plan, a.Env, false)
+				}
+				base2 = run(sb, sc.World, "", simrt.Plan{}, nil, false)
+				k1, _ := describeDiff(out, again)
+				k2, _ := describeDiff(base, base2)
+				if k1 != "" || k2 != "" {
+					viol = append(viol, Violation{Prop: "C03", Oracle: "repeatability",
+						Sig: fmt.Sprintf("C03/%s/%s/uncontrolled-nondeterminism", c.Name, kind),
+						Msg: fmt.Sprintf("`%s` gives different results in two runs under the identical schedule, clock and environment: a source of nondeterminism outside the seams", strings.Join(c.Argv, " ")),
+						Detail: detail})
+					break
+				}
 				// attribution: which of the permuted sites is sufficient on its own?
 				if len(sites) > 1 {
 					var enough []string
@@ -439,6 +457,21 @@ func evalC03(sc *Scenario, sim *Sim) ([]Violation, bool, string) {
 			for k := 0; k < 2; k++ {
 				out := run(sb, sc.World, "", simrt.Plan{}, nil, true)
 				if kind, detail := describeDiff(base, out); kind != "" {
+					// before blaming the seams: does the instrumented binary repeat itself at all?
+					unstable := false
+					for q := 0; q < 4; q++ {
+						if k3, _ := describeDiff(base, run(sb, sc.World, "", simrt.Plan{}, nil, false)); k3 != "" {
+							unstable = true
+						}
+					}
+					if unstable {
+						viol = append(viol, Violation{Prop: "C03", Oracle: "repeatability",
+							Sig: fmt.Sprintf("C03/%s/%s/uncontrolled-nondeterminism", c.Name, kind),
+							Msg: fmt.Sprintf("`%s` gives different results in repeated runs under the identical schedule: a source of nondeterminism outside the seams", strings.Join(c.Argv, " ")),
+							Detail: detail})
+						agree = false
+						break
+					}
 					machinery("the uninstrumented binary disagrees with the instrumented one on `%s` although every explored schedule agrees (%s): the simulator cannot reproduce an order the real runtime produced\n%s", strings.Join(c.Argv, " "), kind, detail)
 				}
 			}
